@@ -281,6 +281,11 @@ func c13Inputs(r *rand.Rand, env *Env, idx, nIn int) []string {
 		if len(inputs[i]) > 1500 {
 			inputs[i] = inputs[i][:1500]
 		}
+		if strings.TrimSpace(inputs[i]) == "" {
+			// whitespace-only input is returned as it is by Sanitize/SanitizeBytes and normalised by the
+			// reader entry points (C15 allows that); the entry points are compared with each other here
+			inputs[i] = "<b>blank</b>" + inputs[i]
+		}
 	}
 	// one large input (output beyond 64 KiB) for two of the policies: size-dependent bookkeeping is reached too
 	if nIn > 20 && (idx == 1 || idx == 4) {
